@@ -19,7 +19,7 @@ def hx(s):
     return "x" + s.encode("latin1").hex()
 
 def cell(S, M, L, declared, expect, cache, kind, seed):
-    path = "/%s%d" % ("g" if kind == "g" else "r", M)
+    path = "/%s%d" % ({"g": "g", "r": "r", "v": "gv"}[kind], M)   # v: like g, the body taken by Vec::try_from
     head = "POST %s HTTP/1.1\r\n" % path
     if expect:
         head += "Expect: 100-continue\r\n"
@@ -40,7 +40,7 @@ def grid():
                 for declared in (True, False):
                     for expect in (False, True):
                         for cache in ("ok", "-", "missing"):
-                            for kind in ("g", "r"):
+                            for kind in ("g", "r", "v"):
                                 out.append((S, M, L, declared, expect, cache, kind))
     return out
 
